@@ -105,6 +105,31 @@ theorem run_eq_to_future {α} (xs : List (Notif α)) :
   rw [h2]
   exact h1
 
+/-- **run_latch_all_interleavings.** `run()` with the source emitting from another thread: for EVERY
+interleaving of the producer thread's atomic steps (writes of `result`, `has_result`, `exception`,
+`done`, `latch.set()` in program order) with the waiting thread's (`while not done: latch.wait()`,
+then the three reads), whenever `run()` returns or raises it returns the last element before the
+first terminal, raises the sequence's error, or raises SequenceContainsNoElementsError — exactly
+the sequential reading `runBlocking` (hence, by `run_eq_to_future`, what `to_future` holds) —
+and it can only finish if the sequence has a terminal. -/
+theorem run_latch_all_interleavings {α} (xs : List (Notif α)) (sched : List Bool) (r : ToFuture.RunResult α)
+    (h : (RunLatch.run xs sched).w = .finished r) :
+    r = ToFuture.runBlocking xs ∧ ToFuture.runBlocking xs ≠ .blocks :=
+  ⟨RunLatch.finished_correct xs sched r h, RunLatch.finished_not_blocks xs sched r h⟩
+
+/-- **run_latch_no_lost_wakeup.** Whatever the interleaving so far: once the producer thread has
+delivered a terminating sequence completely, the waiting thread is never stuck in `latch.wait()` —
+five more of its own steps and `run()` has returned or raised. -/
+theorem run_latch_no_lost_wakeup {α} (xs : List (Notif α)) (sched : List Bool)
+    (ht : xs.any Notif.isTerminal = true) (hrem : (RunLatch.run xs sched).rem = []) :
+    ∃ r, (RunLatch.wstep (RunLatch.wstep (RunLatch.wstep (RunLatch.wstep (RunLatch.wstep
+      (RunLatch.run xs sched)))))).w = .finished r := by
+  obtain ⟨⟨pre, hc, hs⟩, _⟩ := RunLatch.inv_run xs sched
+  rw [hrem, List.append_nil] at hc
+  have := RunLatch.final_done_latch xs ({} : RunLatch.Shared α) ht
+  rw [hc, ← hs] at this
+  exact RunLatch.waiter_finishes _ this.1 this.2
+
 /-- **to_async_single_then_complete.** For every history of the scheduler running the action and of
 observers subscribing (before or after it, any number, the same observer several times): each
 subscription of observer `i` receives exactly the function's single result then completion — or
@@ -179,6 +204,10 @@ example : (ToFuture.run ([Notif.next 1, .next 2, .completed, .next 9, .error "la
     = Fut.result 2 := by decide
 example : ToFuture.expected [Notif.next 1, .next 2, .completed, .next 9] = Fut.result 2 := by decide
 example : ToFuture.runBlocking [Notif.next (1 : Nat), .next 2] = .blocks := by decide
+/-- an interleaving in which the waiter first blocks, the producer then completes, the waiter wakes up -/
+example : (RunLatch.run [Notif.next (1 : Nat), .next 2, .completed]
+    [false, false, true, true, false, true, true, true, true, false, false, false, false, false]).w
+    = .finished (.returns 2) := by decide
 example : ToAsync.received (ToAsync.run (.ok 5 : Except Err Nat) [.subscribe 0, .run, .subscribe 1]) 1
     = [.next 5, .completed] := by decide
 example : FromCallback.subscribeRun cfgMap false [[1, 2, 3], [4]] = [.next 3, .completed] := by decide
